@@ -1454,6 +1454,10 @@ def gen_msd_shape():
         if 'to_displacements' in own:
             # Model.C06 unwraps with pymatgen's to_displacements (round half to even); an own version is not what the model transcribes
             raise Unsupported('Trajectory overrides the library method to_displacements')
+        gl = [ast.unparse(x) for x in _stmts(_find_func(tree, 'Trajectory', 'get_lattice'))]
+        if gl != ['if self.constant_lattice:\n    return Lattice(self.lattice)', 'latt = self.lattices[idx]', 'return Lattice(latt)']:
+            # a pure read: it must not go through accessors that convert the trajectory between positions and displacements
+            raise Unsupported('get_lattice: ' + ' | '.join(gl)[:200])
         db = ast.unparse(_find_func(tree, 'Trajectory', 'distances_from_base_position'))
         if 'self.cumulative_displacements' not in db or '_lengths(' not in db:
             raise Unsupported('distances_from_base_position')
@@ -1702,6 +1706,10 @@ def traj_core_unit():
             raise Unsupported('filter: missing `%s`' % need)
     if 'coords_are_displacement' in fl or 'base_positions' in fl:
         raise Unsupported('filter builds the new object from something else than positions')
+    gl = [ast.unparse(x) for x in _stmts(_find_func(tree, 'Trajectory', 'get_lattice'))]
+    if gl != ['if self.constant_lattice:\n    return Lattice(self.lattice)', 'latt = self.lattices[idx]', 'return Lattice(latt)']:
+        # a pure read: it must not go through accessors that convert the trajectory between positions and displacements
+        raise Unsupported('get_lattice: ' + ' | '.join(gl)[:200])
     cm = [ast.unparse(s) for s in _stmts(_find_func(tree, 'Trajectory', 'center_of_mass'))]
     want = ['weights = []', None, 'positions_no_pbc = self.base_positions + self.cumulative_displacements',
             'center_of_mass = np.average(positions_no_pbc, axis=1, weights=weights).reshape(-1, 1, 3)', None]
